@@ -88,6 +88,20 @@ pub fn map_err(e: &Err) -> RE {
     }
 }
 
+/// Operands carried by an arithmetic error (to tell *which* operation failed).
+pub fn arith_operands(e: &Err) -> Option<Vec<RV>> {
+    use EvalexprError::*;
+    match e {
+        AdditionError { augend: a, addend: b }
+        | SubtractionError { minuend: a, subtrahend: b }
+        | MultiplicationError { multiplicand: a, multiplier: b }
+        | DivisionError { dividend: a, divisor: b }
+        | ModulationError { dividend: a, divisor: b } => Some(vec![to_rv(a), to_rv(b)]),
+        NegationError { argument } => Some(vec![to_rv(argument)]),
+        _ => None,
+    }
+}
+
 pub fn map_result(r: &EvalexprResultValue) -> RR {
     match r {
         Ok(v) => Ok(to_rv(v)),
